@@ -78,4 +78,66 @@ theorem load_idem (eol : List Char) (t : List Triv) (h : FixTexts eol t) :
     load eol .leading (relex (load eol .leading t)) = load eol .leading t :=
   idem_aux eol t 0 false 0 (by omega) (by simp) h
 
+theorem nextIsBlock_relex_cons (o : Out) (r : List Out) :
+    nextIsBlock (relex (o :: r)) = match o with | .comment (.block _) _ => true | _ => false := by
+  cases o with
+  | newline => rfl
+  | indent => rfl
+  | space => rfl
+  | comment k t => cases k <;> rfl
+
+theorem trailing_idem_aux (eol : List Char) (t : List Triv) : ∀ nl skip nl2 skip2, FixTexts eol t →
+    loadAux eol .trailing nl2 skip2 (relex (loadAux eol .trailing nl skip t)) = loadAux eol .trailing nl skip t := by
+  induction t with
+  | nil => intro _ _ _ _ _; rfl
+  | cons x r ih =>
+    intro nl skip nl2 skip2 hf
+    cases x with
+    | ws hasNl =>
+      simp only [FixTexts] at hf
+      simp only [loadAux]
+      by_cases hb : (nextIsBlock r && !hasNl) = true
+      · simp only [hb, if_true, List.cons_append, List.nil_append, relex, loadAux]
+        -- the space is followed by the block comment again
+        have hr : ∃ lvl txt r', r = .comment (.block lvl) txt :: r' := by
+          cases r with
+          | nil => simp [nextIsBlock] at hb
+          | cons y r' =>
+            cases y with
+            | ws b => simp [nextIsBlock] at hb
+            | comment k txt => cases k <;> simp [nextIsBlock] at hb <;> exact ⟨_, _, _, rfl⟩
+        obtain ⟨lvl, txt, r', hr⟩ := hr
+        subst hr
+        simp only [loadAux, fmtComment, List.cons_append, List.nil_append, relex, nextIsBlock, Bool.not_false,
+          Bool.and_true, if_true]
+        have := ih nl false nl false hf
+        simp only [loadAux, fmtComment, List.cons_append, List.nil_append, relex] at this
+        rw [this]
+      · have hb' : (nextIsBlock r && !hasNl) = false := by simpa using hb
+        simp only [hb', Bool.false_eq_true, if_false, List.nil_append]
+        exact ih nl false nl2 skip2 hf
+    | comment k txt =>
+      simp only [FixTexts] at hf
+      obtain ⟨hfix, hf⟩ := hf
+      have hrec := fun a b => ih 0 false a b hf
+      simp only [loadAux]
+      have hd : decide (Pos.trailing = Pos.leading) = false := by decide
+      simp only [hd]
+      cases k with
+      | shebang =>
+        simp only [fmtComment, List.cons_append, List.nil_append, relex, loadAux, hfix, hd, Bool.not_true,
+          Bool.and_false, Bool.false_eq_true, if_false]
+        rw [hrec]
+      | line =>
+        simp only [fmtComment, List.cons_append, List.nil_append, relex, loadAux, hfix, hd, nextIsBlock,
+          Bool.false_and, Bool.false_eq_true, if_false]
+        rw [hrec]
+      | block lvl =>
+        simp only [fmtComment, List.cons_append, List.nil_append, relex, loadAux, hfix, hd]
+        rw [hrec]
+
+theorem load_trailing_idem (eol : List Char) (t : List Triv) (h : FixTexts eol t) :
+    load eol .trailing (relex (load eol .trailing t)) = load eol .trailing t :=
+  trailing_idem_aux eol t 0 false 0 false h
+
 end StyluaModel.TriviaIdem
